@@ -177,13 +177,12 @@ Json gen_scalar_value(Rng& r, const GenCfg& c) {
         case 11:
             if (c.half && r.coin()) return Json(jsoncons::half_arg, (uint16_t)r.next());
             if (c.tags) {
-                switch (r.below(6)) {
+                switch (r.below(5)) {
                 case 0: return Json("2020-01-02T03:04:05Z", semantic_tag::datetime);
                 case 1: return Json(gen_i64(r), semantic_tag::epoch_second);
                 case 2: return Json(gen_u64(r), semantic_tag::epoch_second);
                 case 3: return Json(gen_double_finite(r), semantic_tag::epoch_second);
-                case 4: return Json("https://example.com/a?b=" + gen_string(r, 5), semantic_tag::uri);
-                default: return Json(gen_i64(r), semantic_tag::epoch_milli);
+                default: return Json("https://example.com/a?b=" + gen_string(r, 5), semantic_tag::uri);
                 }
             }
             break;
@@ -329,6 +328,48 @@ template <class Json> void shape(const Json& v, int d, int& maxd, size_t& nodes)
     else if (v.is_object()) for (const auto& m : v.object_range()) shape(m.value(), d + 1, maxd, nodes);
 }
 template <class Json> bool nontrivial(const Json& v) { int d = 0; size_t n = 0; shape(v, 0, d, n); return n >= 2 || (v.is_string() && v.as_string_view().size() > 0); }
+
+// ---- greedy shrinker: smaller value for which still_fails(v) stays true ---------------------------
+template <class Json> Json* node_at(Json& root, const std::vector<size_t>& path) {
+    Json* p = &root;
+    for (size_t ix : path) {
+        if (p->is_array()) { if (ix >= p->size()) return nullptr; p = &(*p)[ix]; }
+        else if (p->is_object()) { if (ix >= p->size()) return nullptr; auto it = p->object_range().begin(); std::advance(it, (long)ix); p = &it->value(); }
+        else return nullptr;
+    }
+    return p;
+}
+template <class Json> void all_paths(const Json& v, std::vector<size_t>& cur, std::vector<std::vector<size_t>>& out) {
+    out.push_back(cur);
+    size_t i = 0;
+    if (v.is_array()) for (const auto& e : v.array_range()) { cur.push_back(i++); all_paths(e, cur, out); cur.pop_back(); }
+    else if (v.is_object()) for (const auto& m : v.object_range()) { cur.push_back(i++); all_paths(m.value(), cur, out); cur.pop_back(); }
+}
+template <class Json, class F>
+Json shrink(Json v, F still_fails, int budget = 1500) {
+    bool progress = true;
+    while (progress && budget > 0) {
+        progress = false;
+        std::vector<std::vector<size_t>> paths; std::vector<size_t> cur; all_paths(v, cur, paths);
+        for (size_t pi = 0; pi < paths.size() && budget > 0 && !progress; ++pi) {
+            Json* n = node_at(v, paths[pi]);
+            if (!n) continue;
+            // 1. hoist: replace the whole value by this subtree
+            if (!paths[pi].empty()) { Json cand = *n; --budget; if (still_fails(cand)) { v = cand; progress = true; break; } }
+            // 2. delete children one at a time
+            if (n->is_array() || n->is_object()) {
+                for (size_t k = n->size(); k-- > 0 && budget > 0;) {
+                    Json cand = v; Json* m = node_at(cand, paths[pi]);
+                    if (m->is_array()) m->erase(m->array_range().begin() + (long)k);
+                    else { auto it = m->object_range().begin(); std::advance(it, (long)k); m->erase(it); }
+                    --budget;
+                    if (still_fails(cand)) { v = cand; progress = true; break; }
+                }
+            }
+        }
+    }
+    return v;
+}
 
 } // namespace vf
 #endif
